@@ -127,7 +127,7 @@ def _floor_cell(ex, q):
 
 @harness('C10', name='accumulation', universe=_universe,
          tiers={'quick': [{'kind': k, 'nmax': n} for k in ('cartesian', 'cylindrical') for n in (2,)],
-                'thorough': [{'kind': k, 'nmax': n} for k in ('cartesian', 'cylindrical') for n in (2, 3, 4)]},
+                'thorough': [{'kind': k, 'nmax': n} for k in ('cartesian', 'cylindrical') for n in (2, 3)]},      # nmax = 4: > 13000 paths per kind, does not finish in 15 min
          max_paths=400000,
          functions=[EM + '.CartesianRayTransferIntegrator.integrate', EM + '.CylindricalRayTransferIntegrator.integrate'],
          cover=['integrated', 'short-ray-skipped'],
